@@ -295,11 +295,12 @@ class Fn:
                     if best is None or len(want) > best[0]:
                         best = (len(want), name, have[len(want):])
             if best:
-                return self._apply_proj("up:" + best[1], best[2])
+                return self._apply_proj("up:" + best[1], best[2], lambda l: self.expr_local(l, max(depth - 1, 0), stack))
         base = self.expr_local(pl["l"], depth, stack)
-        return self._apply_proj(base, pl["p"])
+        return self._apply_proj(base, pl["p"], lambda l: self.expr_local(l, max(depth - 1, 0), stack))
 
-    def _apply_proj(self, base, proj):
+    def _apply_proj(self, base, proj, index=None):
+        """`index`: renderer for the index local of a `place[i]` projection (None: abstract `[_]`)"""
         e = base
         for p in proj:
             if p == "*":
@@ -312,7 +313,7 @@ class Fn:
                 elif "downcast" in p:
                     e = f"{e}@{p['downcast']}"
                 elif "index" in p:
-                    e = f"{e}[_]"
+                    e = f"{e}[{index(p['index']) if index is not None and isinstance(p['index'], int) else '_'}]"
                 elif "cidx" in p:
                     e = f"{e}[{p['cidx']}]"
                 elif "subslice" in p:
